@@ -23,19 +23,22 @@ const (
 	c04Slice
 	c04Map
 	c04Ptr
+	c04Any // interface{} holding int, string key, S, *S or []int
 )
 
 type c04ty struct {
 	k    c04kind
 	elem *c04ty
-	n    int
+	n    int // array length; struct: number of fields (a prefix of the fields of S)
 	name string // Go spelling
 }
 
 var (
 	c04TInt  = &c04ty{k: c04Int, name: "int"}
 	c04TKey  = &c04ty{k: c04Key, name: "string"}
-	c04TS    = &c04ty{k: c04Struct, name: "S"}
+	c04TS    = &c04ty{k: c04Struct, n: 6, name: "S"}
+	c04TR    = &c04ty{k: c04Struct, n: 2, name: "R"} // a struct type with methods (S has none)
+	c04TA2R  = &c04ty{k: c04Arr, elem: c04TR, n: 2, name: "[2]R"}
 	c04TA2   = &c04ty{k: c04Arr, elem: c04TInt, n: 2, name: "[2]int"}
 	c04TA4   = &c04ty{k: c04Arr, elem: c04TInt, n: 4, name: "[4]int"}
 	c04TA3S  = &c04ty{k: c04Arr, elem: c04TS, n: 3, name: "[3]S"}
@@ -48,13 +51,21 @@ var (
 	c04TPA   = &c04ty{k: c04Ptr, elem: c04TA3S, name: "*[3]S"}
 	c04TPA4  = &c04ty{k: c04Ptr, elem: c04TA4, name: "*[4]int"}
 	c04TPA2  = &c04ty{k: c04Ptr, elem: c04TA2, name: "*[2]int"}
+	c04TPA3E = &c04ty{k: c04Ptr, elem: c04TA3E, name: "*[3]interface{}"}
+	c04TAny  = &c04ty{k: c04Any, name: "interface{}"}
+	c04TA3E  = &c04ty{k: c04Arr, elem: c04TAny, n: 3, name: "[3]interface{}"}
+	c04TLE   = &c04ty{k: c04Slice, elem: c04TAny, name: "[]interface{}"}
+	c04TME   = &c04ty{k: c04Map, elem: c04TAny, name: "map[string]interface{}"}
 	c04Types = []*c04ty{c04TInt, c04TKey, c04TS, c04TA2, c04TA4, c04TA3S, c04TLI, c04TLS, c04TLL, c04TMI, c04TMS, c04TPS, c04TPA}
 )
 
 // fields of S
 var (
-	c04FieldNames = []string{"N", "A", "L", "M", "P"}
-	c04FieldTypes = []*c04ty{c04TInt, c04TA2, c04TLI, c04TMI, c04TPS}
+	c04FieldNames = []string{"N", "A", "L", "M", "P", "E"}
+	c04FieldTypes = []*c04ty{c04TInt, c04TA2, c04TLI, c04TMI, c04TPS, c04TAny}
+
+	// dynamic types an interface value of the pool can hold, by tag
+	c04BoxTypes = []*c04ty{c04TInt, c04TKey, c04TS, c04TPS, c04TLI, c04TR} // (R only in a region stream)
 )
 
 // element kind for the growth policy of append
@@ -66,8 +77,19 @@ func c04ElemKind(t *c04ty) int {
 		return 1
 	case c04TLI:
 		return 2
+	case c04TAny:
+		return 3
 	}
 	return 0
+}
+
+func c04TagOf(t *c04ty) int {
+	for i, b := range c04BoxTypes {
+		if b == t {
+			return i
+		}
+	}
+	return -1
 }
 
 func c04PtrTo(t *c04ty) *c04ty {
@@ -80,6 +102,8 @@ func c04PtrTo(t *c04ty) *c04ty {
 		return c04TPA4
 	case c04TA2:
 		return c04TPA2
+	case c04TA3E:
+		return c04TPA3E
 	}
 	return nil
 }
@@ -92,6 +116,8 @@ func c04SliceOf(t *c04ty) *c04ty {
 		return c04TLS
 	case c04TLI:
 		return c04TLL
+	case c04TAny:
+		return c04TLE
 	}
 	return nil
 }
@@ -152,8 +178,13 @@ type c04fn struct {
 // variable names
 type c04names map[int]string
 
-var c04PoolNames = map[int]string{0: "a", 1: "s", 2: "sl", 3: "ss", 4: "m", 5: "p", 6: "q", 7: "ai", 8: "si", 9: "i", 10: "j", 11: "k"}
-var c04PoolTypes = map[int]*c04ty{0: c04TA3S, 1: c04TS, 2: c04TLS, 3: c04TLL, 4: c04TMS, 5: c04TPS, 6: c04TPA, 7: c04TA4, 8: c04TLI, 9: c04TInt, 10: c04TInt, 11: c04TKey}
+var c04PoolNames = map[int]string{0: "a", 1: "s", 2: "sl", 3: "ss", 4: "m", 5: "p", 6: "q", 7: "ai", 8: "si", 9: "i", 10: "j", 11: "k", 12: "ea", 13: "es", 14: "em", 15: "e", 16: "r", 17: "ra"}
+var c04PoolTypes = map[int]*c04ty{0: c04TA3S, 1: c04TS, 2: c04TLS, 3: c04TLL, 4: c04TMS, 5: c04TPS, 6: c04TPA, 7: c04TA4, 8: c04TLI, 9: c04TInt, 10: c04TInt, 11: c04TKey,
+	12: c04TA3E, 13: c04TLE, 14: c04TME, 15: c04TAny,
+	16: c04TR, 17: c04TA2R} // r and ra are not part of the dump: they serve the method constructs only
+
+const c04PoolSize = 16 // observed variables
+const c04VarCount = 18
 
 func c04VarName(id int) string {
 	if n, ok := c04PoolNames[id]; ok {
@@ -182,6 +213,12 @@ func c04Add(a, b *c04ex) *c04ex           { return &c04ex{K: "add", A: a, B: b, 
 func c04Len(e *c04ex) *c04ex              { return &c04ex{K: "len", A: e, T: c04TInt} }
 func c04Cap(e *c04ex) *c04ex              { return &c04ex{K: "cap", A: e, T: c04TInt} }
 func c04MapGet(m, k *c04ex) *c04ex        { return &c04ex{K: "mapget", A: m, B: k, T: m.T.elem} }
+// conversion of a concrete value to interface{} (implicit in the Go text) and type assertion
+func c04Box(e *c04ex) *c04ex { return &c04ex{K: "box", A: e, V: c04TagOf(e.T), T: c04TAny} }
+func c04Unbox(e *c04ex, t *c04ty) *c04ex {
+	return &c04ex{K: "unbox", A: e, V: c04TagOf(t), T: t}
+}
+
 func c04Lit(t *c04ty, l []*c04ex) *c04ex {
 	if t.k == c04Struct {
 		return &c04ex{K: "struct", L: l, T: t}
@@ -249,7 +286,7 @@ func (e *c04ex) goStr() string {
 		for i, f := range e.L {
 			fs = append(fs, c04FieldNames[i]+": "+f.goStr())
 		}
-		return "S{" + strings.Join(fs, ", ") + "}"
+		return e.T.name + "{" + strings.Join(fs, ", ") + "}"
 	case "arr":
 		var fs []string
 		for _, f := range e.L {
@@ -282,6 +319,10 @@ func (e *c04ex) goStr() string {
 		return s + "]"
 	case "mapget":
 		return e.A.goPostfix() + "[" + e.B.goStr() + "]"
+	case "box":
+		return e.A.goStr()
+	case "unbox":
+		return e.A.goPostfix() + ".(" + e.T.name + ")"
 	}
 	panic("c04: goStr " + e.K)
 }
@@ -301,7 +342,7 @@ func (e *c04ex) goBase() string {
 // goPostfix renders an expression in operand position of a postfix operator.
 func (e *c04ex) goPostfix() string {
 	switch e.K {
-	case "load":
+	case "load", "box":
 		return e.A.goPostfix()
 	case "deref", "addr":
 		return "(" + e.goStr() + ")"
@@ -379,7 +420,11 @@ func (o *c04op) goLines(ind string) []string {
 		return []string{ind + "copy(" + o.A.goStr() + ", " + o.B.goStr() + ")"}
 	case "range":
 		k, v := c04VarName(o.KV[0]), c04VarName(o.KV[1])
-		out := []string{ind + "for " + k + ", " + v + " := range " + o.A.goStr() + " {", ind + "\t_, _ = " + k + ", " + v}
+		// the iteration count is bounded in the program text, so that a loop made endless by a
+		// change of the interpreter still terminates (never reached on a correct interpreter)
+		var out []string
+		out = append(out, ind+"n"+k+" := 0", ind+"for "+k+", "+v+" := range "+o.A.goStr()+" {", ind+"\t_, _ = "+k+", "+v,
+			ind+"\tif n"+k+"++; n"+k+" > 50 {", ind+"\t\tbreak", ind+"\t}")
 		for _, b := range o.Body {
 			out = append(out, b.goLines(ind+"\t")...)
 		}
@@ -439,13 +484,20 @@ type S struct {
 	L []int
 	M map[string]int
 	P *S
+	E interface{}
 }
 
 var keys = []string{"k0", "k1", "k2", "k3"}
 
-func (x S) Get() int   { return x.N }
-func (x S) SetN(n int) { x.N = n; x.A[0] = n }
-func (x *S) Inc()      { x.N++ }
+// a struct type with methods (kept apart from S: see finding iface-holds-type-with-methods)
+type R struct {
+	N int
+	A [2]int
+}
+
+func (x R) Get() int   { return x.N }
+func (x R) SetN(n int) { x.N = n; x.A[0] = n }
+func (x *R) Inc()      { x.N++ }
 
 func fnr(y *S) (r S) {
 	r.N = 5
@@ -499,7 +551,7 @@ const c04DumpDecl = `func class(x *S, a *[3]S, s *S, sl []S) int {
 	return 99
 }
 
-func dump(a *[3]S, s *S, sl []S, ss [][]int, m map[string]S, p *S, q *[3]S, ai *[4]int, si []int, i, j int, k string) {
+func dump(a *[3]S, s *S, sl []S, ss [][]int, m map[string]S, p *S, q *[3]S, ai *[4]int, si []int, i, j int, k string, ea *[3]interface{}, es []interface{}, em map[string]interface{}, e interface{}) {
 	showP := func(x *S) {
 		c := class(x, a, s, sl)
 		if c == 0 {
@@ -508,11 +560,34 @@ func dump(a *[3]S, s *S, sl []S, ss [][]int, m map[string]S, p *S, q *[3]S, ai *
 		}
 		fmt.Print(" ", c, " ", x.N, " ", x.A[0], " ", x.A[1])
 	}
+	showE := func(x interface{}) {
+		switch y := x.(type) {
+		case nil:
+			fmt.Print(" 0")
+		case int:
+			fmt.Print(" 1 ", y)
+		case string:
+			fmt.Print(" 2 ", y[1:])
+		case S:
+			fmt.Print(" 3 ", y.N, " ", y.A[0], " ", y.A[1])
+		case *S:
+			fmt.Print(" 4")
+			showP(y)
+		case []int:
+			fmt.Print(" 5")
+			showLI(y)
+		case R:
+			fmt.Print(" 6 ", y.N)
+		default:
+			fmt.Print(" ?")
+		}
+	}
 	showS := func(x *S) {
 		fmt.Print(" ", x.N, " ", x.A[0], " ", x.A[1])
 		showLI(x.L)
 		showMI(x.M)
 		showP(x.P)
+		showE(x.E)
 	}
 	fmt.Print("a=")
 	for n := 0; n < 3; n++ {
@@ -561,6 +636,30 @@ func dump(a *[3]S, s *S, sl []S, ss [][]int, m map[string]S, p *S, q *[3]S, ai *
 	fmt.Print(" si=")
 	showLI(si)
 	fmt.Print(" ij= ", i, " ", j, " ", k[1:])
+	fmt.Print(" ea=")
+	for n := 0; n < 3; n++ {
+		showE(ea[n])
+	}
+	fmt.Print(" es= ", len(es), " ", cap(es))
+	for n := range es {
+		showE(es[n])
+	}
+	fmt.Print(" em=")
+	if em == nil {
+		fmt.Print(" 1")
+	} else {
+		fmt.Print(" 0")
+		for _, key := range keys {
+			if v, ok := em[key]; ok {
+				fmt.Print(" 1")
+				showE(v)
+			} else {
+				fmt.Print(" 0")
+			}
+		}
+	}
+	fmt.Print(" e=")
+	showE(e)
 	fmt.Println()
 }
 
@@ -578,9 +677,16 @@ const c04MainHead = `func main() {
 	var si []int
 	var i, j int
 	k := "k0"
+	var ea [3]interface{}
+	var es []interface{}
+	var em map[string]interface{}
+	var r R
+	var ra [2]R
+	_, _ = r, ra
+	var e interface{}
 `
 
-const c04DumpCall = "dump(&a, &s, sl, ss, m, p, q, &ai, si, i, j, k)"
+const c04DumpCall = "dump(&a, &s, sl, ss, m, p, q, &ai, si, i, j, k, &ea, es, em, e)"
 
 // c04Program renders a complete program.
 func c04Program(fns []*c04fn, extraDecls []string, ops []*c04op) string {
@@ -687,6 +793,10 @@ func (e *c04ex) coqRv() string {
 		return "(RSlice " + e.A.coqRv() + " " + c04CoqOrv(e.B) + " " + c04CoqOrv(e.C) + " " + c04CoqOrv(e.D) + ")"
 	case "mapget":
 		return "(RMapGet " + e.A.coqRv() + " " + e.B.coqRv() + " " + c04ZeroCoq(e.T) + ")"
+	case "box":
+		return fmt.Sprintf("(RBox %d %s)", e.V, e.A.coqRv())
+	case "unbox":
+		return fmt.Sprintf("(RUnbox %d %s)", e.V, e.A.coqRv())
 	}
 	panic("c04: coqRv " + e.K)
 }
